@@ -287,6 +287,92 @@ def d29_shape(r):
     return True
 
 
+def directive_inside_parens(text):
+    """a #define/#undef line reached while parentheses are open (i.e. possibly inside a macro invocation: 6.10.3p11 UB)"""
+    if isinstance(text, bytes):
+        text = text.decode('latin1')
+    depth = 0
+    for line in text.split('\n'):
+        st = line.lstrip()
+        if st.startswith('#'):
+            if depth > 0 and re.match(r'#\s*(undef|define)\b', st):
+                return True
+            continue
+        q = None
+        i = 0
+        while i < len(line):
+            c = line[i]
+            if q:
+                if c == '\\':
+                    i += 1
+                elif c == q:
+                    q = None
+            elif c in '"\'':
+                q = c
+            elif c == '(':
+                depth += 1
+            elif c == ')':
+                depth = max(0, depth - 1)
+            i += 1
+    return False
+
+
+def join_parens(text):
+    """replace every new-line that occurs while parentheses are open by a space (strings, character constants and
+    comments respected; directive lines untouched): the same program without multi-line invocations"""
+    out, depth, i, n, bol = [], 0, 0, len(text), True
+    while i < n:
+        c = text[i]
+        if bol and text[i:].lstrip(' \t').startswith('#'):
+            j = text.find('\n', i)
+            j = n if j < 0 else j + 1
+            out.append(text[i:j])
+            i = j
+            continue
+        if c in '"\'':
+            j = i + 1
+            while j < n and text[j] != c and text[j] != '\n':
+                j += 2 if text[j] == '\\' else 1
+            out.append(text[i:j + 1])
+            i = j + 1
+            bol = False
+            continue
+        if text.startswith('/*', i):
+            j = text.find('*/', i + 2)
+            j = n if j < 0 else j + 2
+            out.append(text[i:j])
+            i = j
+            continue
+        if c == '(':
+            depth += 1
+        elif c == ')':
+            depth = max(0, depth - 1)
+        if c == '\n':
+            nxt = text[i + 1:].lstrip(' \t')
+            if depth > 0 and not nxt.startswith('#'):
+                out.append(' ')
+                i += 1
+                continue
+            bol = True
+        elif c not in ' \t':
+            bol = False
+        out.append(c)
+        i += 1
+    return ''.join(out)
+
+
+NEWLINE_KEY = 'newline-in-argument-blocks-invocation'
+NEWLINE_WHAT = ('a new-line kept as a token inside a macro argument changes the result '
+                '(the discrepancy disappears when the new-lines inside the parentheses are replaced by spaces)')
+
+
+def refs_agree_with_spec(r):
+    """both reference preprocessors (as far as they were run) produce exactly the specified tokens"""
+    want = proj(strip_nl(r['spec'][1]), False, False)
+    seen = [w for w in ('cpp', 'clang') if w in r]
+    return bool(seen) and all(r[w][0] == 'Ok' and r[w][1] == want for w in seen)
+
+
 def verdict(r):
     """('ok'|'skip'|'violation'|'drift'|'specval', key, what)"""
     cls = classify(r)
@@ -294,8 +380,10 @@ def verdict(r):
         return ('skip' if cls in ('fuel', 'scan-error') else 'ok'), None, cls
     labels = cls.split(' | ')
     if any(l.startswith('DIFF real crashed') for l in labels):
-        key = 'crash-undef-inside-own-arguments' if re.search(r'\(\s*[^()]*\n\s*#\s*(undef|define)', r['text']) else \
-            ('hang' if 'timeout' in r['real'][0] else 'crash')
+        # the model knows whether a directive redefined a macro while its own invocation was being collected
+        own = 'EDirectiveInCall' in r.get('model', ('',))[0] or re.search(r'\(\s*[^()]*\n\s*#\s*(undef|define)', r['text']) \
+            or directive_inside_parens(r['text'])
+        key = 'crash-undef-inside-own-arguments' if own else ('hang' if 'timeout' in r['real'][0] else 'crash')
         return 'violation', key, 'cproc-qbe -E crashed (%s)' % r['real'][0]
     vs = [l for l in labels if l.startswith('real!=spec')]
     ms = [l for l in labels if l.startswith('real!=model') or l.startswith('DIFF')]
@@ -304,11 +392,25 @@ def verdict(r):
         l = vs[0]
         if 'string-content' in l and d29_shape(r):
             return 'violation', 'D29-call-in-argument-not-stringized', 'a macro call inside an argument that is used both plainly and with #: its arguments are missing from the string'
+        if '(tokens)' in l or 'spec Err' in l:
+            rt = r['real'][1]
+            for i in range(1, len(rt) - 1):
+                if rt[i][0] == T_NEWLINE and rt[i - 1][0] == T_IDENT and not rt[i - 1][2]:
+                    j = i
+                    while j < len(rt) and rt[j][0] == T_NEWLINE:
+                        j += 1
+                    if j < len(rt) and rt[j][3] == b'(':
+                        return 'violation', 'newline-in-argument-blocks-invocation', \
+                            'a new-line kept as a token inside a macro argument stands between a function-like macro name and the ( that follows it after substitution'
+        if 'string-spacing' in l and not refs_agree_with_spec(r):
+            # white space next to tokens that came out of an expansion (empty arguments, ends of replacement lists) is not
+            # settled by 6.10.3.2; it is judged only when gcc and clang both side with the specification
+            return 'ok', None, 'note:string-spacing-not-settled'
         if 'spec Err' in l and c10_accepts_invalid(r['text']):
             return 'ok', None, 'note:c10-accepts-invalid-definition'
         if 'spec Err' in l:
             # the constraint gcc names (macro names and numbers removed) identifies the finding class
-            msg = ''
+            msg = '(gcc-accepts-too)' if 'cpp' in r and r['cpp'][0] == 'Ok' else ''
             if 'cpp' in r and r['cpp'][0] == 'Err' and len(r['cpp']) > 2:
                 m = re.search(r'error: ([^\n]*)', r['cpp'][2])
                 msg = re.sub(r'"[^"]*"|\d+', '', m.group(1)).strip() if m else ''
@@ -321,6 +423,12 @@ def verdict(r):
     if ms:
         return 'drift', None, ms[0]
     if sv:
+        want = proj(strip_nl(r['spec'][1]), False, False)
+        refs = [r[w][1] for w in ('cpp', 'clang') if w in r and r[w][0] == 'Ok']
+        if refs and all(token_diff(want, x) == 'string-spacing' for x in refs):
+            return 'ok', None, 'note:string-spacing-not-settled'
+        if len(refs) == 2 and refs[0] != refs[1]:
+            return 'ok', None, 'note:references-disagree'
         return 'specval', None, sv[0]
     return 'ok', None, cls
 
@@ -369,6 +477,8 @@ REGRESSION = [
 
 # deterministic replays of the known findings (they are expected to deviate until fixed)
 KNOWN = [
+    ('newline-in-argument-blocks-invocation', '#define f(x) [x]\n#define g(r) r (1)\ng(f\n)\n'),
+    ('invalid-invocation-accepted:unterminated-argument-list-invoking-macro', '#define f(p)p\n#define OPEN  f(\nOPEN OPEN)) ;\n'),
     ('D29-call-in-argument-not-stringized', '#define id(x) x\n#define S(p) p #p\nS(id(1))\n'),
     ('crash-undef-inside-own-arguments', '#define f(p,w1)\n{f(,\n#undef f\n#define f(r  ,  s)r# s f (y ,A )r\n B B\nB\n ; C ""\nB 1\n\n'),
 ]
@@ -426,6 +536,13 @@ def run(ctx):
                 stats['evaluations'] += 1
                 kind, key, what = verdict(r)
                 stats['class:' + classify(r).split(' | ')[0].split('(')[0]] += 1
+                if kind == 'violation' and (key.startswith('macro-expansion-mismatch') or key.startswith('invalid-invocation-accepted')) \
+                        and 'string' not in key and key != 'invalid-invocation-accepted:unterminated-argument-list-invoking-macro':
+                    joined = join_parens(text)
+                    if joined != text:
+                        v2 = verdict(ev.evaluate(joined, want_cpp=True))
+                        if v2[:2] != (kind, key):
+                            key, what = NEWLINE_KEY, NEWLINE_WHAT + ' [' + what[:80] + ']'
                 if 'model' in r and r['model'][0] == 'Done' and 'real' in r:
                     outsp = [t[3] for t in r['real'][1] if t[0] != T_NEWLINE]
                     rcr, raws, _ = ev.raw_tokens(ev.path(text))
@@ -484,7 +601,7 @@ def run(ctx):
                 if not good:
                     ctx.violation('regression: %s\ngot (rc=%d): %s\nwant: %s' % (name, r['rc'], got, want), text, 'c', key='regression:' + name.split(' ')[0])
             for key, text in KNOWN:
-                r = ev.evaluate(text, want_cpp=False)
+                r = ev.evaluate(text, want_cpp=True)
                 stats['known-replays'] += 1
                 kind, k, what = verdict(r)
                 if kind == 'violation':
